@@ -108,6 +108,10 @@ def _all():
         _v("i_1", "1", ["int"]),
         _v("i_0", "0", ["int"]),
         _v("i_neg", "-1", ["int"]),
+        # ints whose CPython hash values collide with those of other values of the alphabet: hash(-2) == hash(-1),
+        # hash(2**61 - 1) == hash(0)
+        _v("i_m2", "-2", ["int"]),
+        _v("i_2_61m1", "2**61 - 1", ["int"]),
         _v("i_2_31", "2**31", ["int"]),
         _v("i_2_63", "2**63", ["int"]),
         _v("i_big", "10**30", ["int"]),
